@@ -7,12 +7,29 @@ from . import tlc
 from .common import VERIF
 
 
+def _deps(module, seen=None):
+    """the module and the local modules it EXTENDS / instantiates, transitively"""
+    import re
+    seen = seen if seen is not None else []
+    path = os.path.join(tlc.SPEC_DIR, module + ".tla")
+    if module in seen or not os.path.exists(path):
+        return seen
+    seen.append(module)
+    with open(path) as f:
+        text = f.read()
+    for m in re.findall(r"EXTENDS\s+([^\n]+)", text):
+        for name in re.split(r"[,\s]+", m.strip()):
+            _deps(name, seen)
+    for name in re.findall(r"INSTANCE\s+(\w+)", text):
+        _deps(name, seen)
+    return seen
+
+
 def _key(module, consts, kw):
     h = hashlib.sha256()
-    for fn in sorted(os.listdir(tlc.SPEC_DIR)):
-        if fn.endswith(".tla"):
-            with open(os.path.join(tlc.SPEC_DIR, fn), "rb") as f:
-                h.update(fn.encode()); h.update(f.read())
+    for name in sorted(_deps(module)):
+        with open(os.path.join(tlc.SPEC_DIR, name + ".tla"), "rb") as f:
+            h.update(name.encode()); h.update(f.read())
     h.update(json.dumps([module, consts, kw], sort_keys=True, default=str).encode())
     return h.hexdigest()[:24]
 
